@@ -264,6 +264,23 @@ theorem end_to_end_simple (ev : Bytes → Bytes → Bool) (lower : String → St
   filter_spec htmlTokenize ev textToks lower textToks_lossless doc f hdom
     (tokAgree_simple exVocab exVocab_ok doc hs hl hu)
 
+/-- non-vacuity of the universal statement: `<div class="page">` nested `n` times around `<p>hi</p>`, for every `n` -/
+def nest : Nat → Node
+  | 0 => .el [112] [112] [] .normal [.verb [104, 105] []]
+  | n + 1 => .el [100, 105, 118] [100, 105, 118] [32, 99, 108, 97, 115, 115, 61, 34, 112, 97, 103, 101, 34] .normal [nest n]
+
+theorem nest_simple : ∀ n, simpleN exVocab (nest n) = true
+  | 0 => by decide
+  | n + 1 => by
+    have ih := nest_simple n
+    have h1 : exVocab.starts.contains (([100, 105, 118] : Bytes), ([100, 105, 118] : Bytes),
+        ([32, 99, 108, 97, 115, 115, 61, 34, 112, 97, 103, 101, 34] : Bytes)) = true := by decide
+    have h2 : exVocab.ends.contains (([100, 105, 118] : Bytes), ([100, 105, 118] : Bytes)) = true := by decide
+    simp only [nest, simpleN, simpleL, h1, h2, ih, Bool.and_self]
+
+example (n : Nat) : htmlTokenize (serializeList [nest n]) = (tokensOfList textToks [nest n], []) :=
+  tokenize_serialize [nest n] (by simp [simpleL, nest_simple]) (by cases n <;> rfl)
+
 /-! ### the excluded points are real (kernel-checked on the chain model with the tokenizer of C16) -/
 
 /-- `<a><b></b><b></b><b></b></a>` -/
